@@ -90,9 +90,9 @@ PROPS = {
         "explanation": "Theorems: health_sound / health_complete (check accepts exactly the Healthy heaps and returns the true roots), four corruption theorems, allrefs_exact. Tie: every heap dumped from the real storage is checked by the model and the outcome compared with CheckStorageHealth / GetAllChildReferences. Oracle: an independent graph walker in Go.",
     },
     "C15": {
-        "streams": ["storage"], "driver": {"storage": "storage"}, "level": "proof",
+        "streams": ["storage", "storageexh"], "driver": {"storage": "storage", "storageexh": "storage"}, "level": "proof",
         "trusted_base": LEAN_TB, "assumptions": STORAGE_ASSUME,
-        "rule": "random op sequences (store/remove/retrieve/retrieve-if-loaded/cache-bypassing retrieve/both commits with fault plans/drop deltas/drop cache/preload/re-create/external corruption) over 4-15 identifiers incl. a temporary-address one; distinct = distinct op-kind strings",
+        "rule": "random op sequences (store/remove/retrieve/retrieve-if-loaded/cache-bypassing retrieve/both commits with fault plans/drop deltas/drop cache/preload/re-create/external corruption) over 4-15 identifiers incl. a temporary-address one; PLUS bounded-exhaustive: every sequence of length 4 (thorough: 5) over a 22-operation alphabet on two identifiers (one owned, one temporary), two versions, both commits with and without a fault; distinct = distinct op-kind strings / sequences",
         "explanation": "Theorems: storage state machine refines the write-back overlay spec for every op sequence (inv_reachable, step_refines, ...). Tie: model replayed against PersistentSlabStorage on every trace line (observations, ledger call logs, where each id is served from, counters). Oracle: Go-map overlay.",
     },
     "C14": {
